@@ -1378,7 +1378,7 @@ def fwd_acceleration(m: Model, d: Data, factorize: bool = False):
 
 def _energy_pos(m: Model, d: Data, skipsensor: bool = False):
   if m.opt.enableflags & EnableBit.ENERGY:
-    if skipsensor or m.sensor_e_potential == 0:  # not computed by sensor
+    if skipsensor or m.sensor_e_potential == 0 or m.opt.disableflags & DisableBit.SENSOR:  # not computed by sensor
       sensor.energy_pos(m, d)
   else:
     d.energy.zero_()
@@ -1386,7 +1386,7 @@ def _energy_pos(m: Model, d: Data, skipsensor: bool = False):
 
 def _energy_vel(m: Model, d: Data, skipsensor: bool = False):
   if m.opt.enableflags & EnableBit.ENERGY:
-    if skipsensor or m.sensor_e_kinetic == 0:  # not computed by sensor
+    if skipsensor or m.sensor_e_kinetic == 0 or m.opt.disableflags & DisableBit.SENSOR:  # not computed by sensor
       sensor.energy_vel(m, d)
 
 
